@@ -234,7 +234,12 @@ def construction(ctx, rep, r1, r2, r3, r4, r5):
                       "sequence used as requirement contributes %s" % (T.show(arg, 3) if arg is not None else None),
                       "requiring a sequence does not wait for the end of the sequence", trace(e.st))
         kw = dict(e.data['kws'])
-        rep.check(kw.get('remove') == REMOVE, r3, "%s recursive call forwards remove" % e.where, fn,
+        fwd = kw.get('remove')
+        known = e.st.facts.get(REMOVE)
+        # (under `if remove:` the literal True is the flag, and False under `else:`)
+        ok = fwd == REMOVE or (known is not None and fwd == ('const', known)) \
+            or (known is False and fwd is None)
+        rep.check(ok, r3, "%s recursive call forwards remove" % e.where, fn,
                   "`%s`" % src(stmt_of(e.node)), "remove=True is lost for nested collections", trace(e.st))
     # ------------------------------------------------------------ R19.4 required= goes to the first job
     init = seq.methods.get('__init__')
@@ -523,3 +528,276 @@ def sequence_keeps_requirements(ctx, rep, rule):
                           "`%s` on the path where the sequence was empty, without `<first>.requires(self.%s)`"
                           % (src(stmt_of(e.node)), attr),
                           "requirements kept while the sequence was empty never reach its first job", trace(e.st))
+
+
+# ======================================================= no live iteration of an argument while removing
+SHRINKERS = {'remove', 'discard', 'clear', 'pop', 'difference_update', 'intersection_update',
+             'symmetric_difference_update'}
+SNAPSHOTS = {'list', 'tuple', 'sorted', 'set', 'frozenset'}
+LAZY_WRAPPERS = {'iter', 'reversed', 'enumerate', 'zip', 'filter', 'map', 'chain', 'itertools.chain',
+                 'chain.from_iterable', 'itertools.chain.from_iterable', 'islice', 'itertools.islice'}
+
+
+def no_live_iteration_while_removing(ctx, rep, rule, attr='required'):
+    """requires(..., remove=True) removes exactly the named requirements, whatever collection names them - the
+    job's own `required` set included: a loop of requires() (or of a helper / generator it runs) whose body can
+    remove from `self.required` does not iterate over an object that may be that very set; it iterates over the
+    varargs tuple, a snapshot (list(x), tuple(x), sorted(x), x.copy()), another attribute, or a name that an
+    isinstance() guard shows not to be a set"""
+    from ..effects import callees_by_name
+    from ..index import _is_generator
+    r, p = ctx.roles, ctx.prog
+    f0 = p.supplier(r.jobbase, 'requires')
+    if f0 is None:
+        rep.error(rule, "requires() not found")
+        return
+
+    def self_rel(e):
+        return _is_rel(e, attr) and ((isinstance(e, ast.Attribute) and isinstance(e.value, ast.Name)
+                                      and e.value.id == 'self') or isinstance(e, ast.Call))
+
+    import builtins
+    BUILTIN_NAMES = set(dir(builtins))
+
+    def refs(f):
+        """methods of self that `f` mentions (called or not: `self._h` stored in a table is called later)"""
+        out = []
+        for n in walk_local(f.node):
+            if isinstance(n, ast.Attribute) and isinstance(n.ctx, ast.Load) and isinstance(n.value, ast.Name) \
+                    and n.value.id == 'self' and f.cls is not None:
+                for c in p.dispatch_set(f.cls, n.attr) or []:
+                    if c not in out:
+                        out.append(c)
+        return out
+
+    # functions that can shrink self.required (directly, or through a call on self / a package function)
+    def direct_shrink(n):
+        if isinstance(n, ast.Call) and isinstance(n.func, ast.Attribute) and n.func.attr in SHRINKERS \
+                and _is_rel(n.func.value, attr):
+            return True
+        if isinstance(n, ast.AugAssign) and _is_rel(n.target, attr) and isinstance(n.op, (ast.Sub, ast.BitAnd, ast.BitXor)):
+            return True
+        if isinstance(n, (ast.Assign, ast.Delete)) and any(_is_rel(t, attr) for t in n.targets):
+            return True
+        return False
+    shr = {f.qualname for f in p.funcs.values() if f.cls is not None and r.jobbase in f.cls.mro
+           and any(direct_shrink(n) for n in walk_local(f.node))}
+    changed = True
+    while changed:
+        changed = False
+        for f in p.funcs.values():
+            if f.qualname in shr or f.cls is None or r.jobbase not in f.cls.mro:
+                continue
+            if any(c.qualname in shr for c in refs(f)):
+                shr.add(f.qualname)
+                changed = True
+                continue
+            for n in walk_local(f.node):
+                if isinstance(n, ast.Call) and isinstance(n.func, ast.Name) \
+                        and any(c.qualname in shr for c in callees_by_name(p, f, n)):
+                    shr.add(f.qualname)
+                    changed = True
+                    break
+
+    def shrinking_call(f, n):
+        """a call that may remove from self.required"""
+        if not isinstance(n, ast.Call):
+            return False
+        if direct_shrink(n):
+            return True
+        fn = n.func
+        if not (isinstance(fn, ast.Name) or (isinstance(fn, ast.Attribute) and isinstance(fn.value, ast.Name)
+                                             and fn.value.id == 'self')):
+            return False
+        cs = [c for c in callees_by_name(p, f, n) if c.qualname in shr]
+        if not cs and isinstance(fn, ast.Name) and not callees_by_name(p, f, n) and fn.id not in BUILTIN_NAMES:
+            # a call through a local name (`handler(x, remove)` out of a dispatch table): any method of self
+            # that the function mentions may be the one
+            return any(c.qualname in shr for c in refs(f))
+        if not cs:
+            return False
+        # requires(..., remove=False) only adds
+        if all(c.name == f0.name for c in cs):
+            kw = {k.arg: k.value for k in n.keywords}
+            if 'remove' in kw and isinstance(kw['remove'], ast.Constant) and kw['remove'].value is False:
+                return False
+            if 'remove' not in kw and not any(k.arg is None for k in n.keywords):
+                return False
+        return True
+
+    def body_nodes(loop):
+        if isinstance(loop, (ast.For, ast.AsyncFor)):
+            for b in loop.body + loop.orelse:
+                yield b
+                for n in walk_local(b):
+                    yield n
+        else:
+            comp, gi = loop
+            parts = [comp.elt] if not isinstance(comp, ast.DictComp) else [comp.key, comp.value]
+            for g in comp.generators[gi:]:
+                parts += list(g.ifs)
+            for g in comp.generators[gi + 1:]:
+                parts.append(g.iter)
+            for e in parts:
+                for n in ast.walk(e):
+                    yield n
+
+    def guard_excludes_set(f, loopnode, name):
+        n = loopnode
+        while n is not None and n is not f.node:
+            par = getattr(n, '_parent', None)
+            if isinstance(par, ast.If) and n in par.body:
+                t = par.test
+                tests = t.values if isinstance(t, ast.BoolOp) and isinstance(t.op, ast.And) else [t]
+                for c in tests:
+                    if isinstance(c, ast.Call) and dotted(c.func) == 'isinstance' and len(c.args) == 2 \
+                            and isinstance(c.args[0], ast.Name) and c.args[0].id == name:
+                        kinds = c.args[1].elts if isinstance(c.args[1], ast.Tuple) else [c.args[1]]
+                        names = [dotted(k) for k in kinds]
+                        if all(k in ('list', 'tuple', 'frozenset', 'dict', 'str') or
+                               (k in p.classes) for k in names):
+                            return True
+            n = par
+        return False
+
+    def classify(f, loopnode, e, depth=0):
+        """None when `e` cannot be the live `required` set of self, else the reason it may"""
+        if isinstance(e, ast.Name):
+            if f.node.args.vararg is not None and e.id == f.node.args.vararg.arg:
+                return None
+            if guard_excludes_set(f, loopnode, e.id):
+                return None
+            defs = [n for n in walk_local(f.node) if isinstance(n, ast.Assign) and len(n.targets) == 1
+                    and isinstance(n.targets[0], ast.Name) and n.targets[0].id == e.id]
+            others = [n for n in walk_local(f.node) if isinstance(n, (ast.For, ast.AugAssign, ast.comprehension, ast.NamedExpr, ast.withitem))
+                      and any(isinstance(t, ast.Name) and t.id == e.id and isinstance(t.ctx, ast.Store) for t in ast.walk(n))]
+            if len(defs) == 1 and not others and e.id not in f.params and depth < 4:
+                return classify(f, loopnode, defs[0].value, depth + 1)
+            if e.id in f.params and not defs and not others and f.name.startswith('_') \
+                    and not f.name.startswith('__') and depth < 4:
+                # the parameter of a private helper: what its callers hand over
+                sites = []
+                for g in p.funcs.values():
+                    for n in walk_local(g.node):
+                        if isinstance(n, ast.Call) and f in callees_by_name(p, g, n):
+                            sites.append((g, n))
+                whys = []
+                for g, n in sites:
+                    prm = [a for a in f.params if a not in ('self', 'cls')] if f.cls is not None and \
+                        isinstance(n.func, ast.Attribute) else list(f.params)
+                    arg = None
+                    if not any(isinstance(a, ast.Starred) for a in n.args) and e.id in prm:
+                        i = prm.index(e.id)
+                        if i < len(n.args):
+                            arg = n.args[i]
+                    for k in n.keywords:
+                        if k.arg == e.id:
+                            arg = k.value
+                    if arg is None:
+                        whys.append("cannot tell what %s hands over at line %d" % (g.qualname, n.lineno))
+                    else:
+                        whys.append(classify(g, n, arg, depth + 1))
+                if sites and all(w is None for w in whys):
+                    return None
+                bad = [w for w in whys if w]
+                if bad:
+                    return "parameter `%s`, and at a call site: %s" % (e.id, bad[0])
+            return "`%s` is an argument of the call (or an element of one), which may be `self.%s` itself" % (e.id, attr)
+        if isinstance(e, (ast.Tuple, ast.List, ast.Set, ast.Dict, ast.Constant, ast.ListComp, ast.SetComp, ast.DictComp)):
+            return None
+        if isinstance(e, ast.Attribute):
+            if e.attr == attr:
+                return "`%s` is a live requirement set" % src(e)
+            return None
+        if isinstance(e, ast.Subscript):
+            return classify(f, loopnode, e.value, depth + 1) if isinstance(e.slice, ast.Slice) is False else None
+        if isinstance(e, ast.Call):
+            d = dotted(e.func)
+            if d in SNAPSHOTS or (isinstance(e.func, ast.Attribute) and e.func.attr in ('copy', 'union', 'difference', 'intersection')):
+                return None
+            if d in ('range', 'len'):
+                return None
+            if d in LAZY_WRAPPERS:
+                for a in e.args:
+                    a = a.value if isinstance(a, ast.Starred) else a
+                    why = classify(f, loopnode, a, depth + 1)
+                    if why:
+                        return why
+                return None
+            cs = callees_by_name(p, f, e)
+            if cs and depth < 4:
+                for c in cs:
+                    if _is_generator(c.node):
+                        # a generator runs interleaved with its consumer: its own yielding loops are live
+                        for lp, it in loops_of(c):
+                            if any(isinstance(n, (ast.Yield, ast.YieldFrom)) for n in body_nodes(lp)):
+                                why = classify(c, lp if not isinstance(lp, tuple) else lp[0], it, depth + 1)
+                                if why:
+                                    return "generator %s: %s" % (c.qualname, why)
+                        for n in walk_local(c.node):
+                            if isinstance(n, ast.YieldFrom):
+                                why = classify(c, n, n.value, depth + 1)
+                                if why:
+                                    return "generator %s: %s" % (c.qualname, why)
+                    else:
+                        for n in walk_local(c.node):
+                            if isinstance(n, ast.Return) and isinstance(n.value, ast.Name) and n.value.id in c.params:
+                                return "%s may return its argument as it is" % c.qualname
+                return None
+            return UNREADABLE
+        if isinstance(e, ast.GeneratorExp):
+            for g in e.generators:
+                why = classify(f, loopnode, g.iter, depth + 1)
+                if why:
+                    return why
+            return None
+        if isinstance(e, ast.IfExp):
+            return classify(f, loopnode, e.body, depth + 1) or classify(f, loopnode, e.orelse, depth + 1)
+        if isinstance(e, ast.BinOp):
+            return None     # a new collection
+        return UNREADABLE
+
+    def loops_of(f):
+        for n in walk_local(f.node):
+            if isinstance(n, (ast.For, ast.AsyncFor)):
+                yield n, n.iter
+            elif isinstance(n, (ast.ListComp, ast.SetComp, ast.GeneratorExp, ast.DictComp)):
+                for gi, g in enumerate(n.generators):
+                    yield (n, gi), g.iter
+
+    UNREADABLE = "?"
+    # the functions requires() runs on self
+    todo, seen = [f0], []
+    while todo:
+        f = todo.pop()
+        if f in seen:
+            continue
+        seen.append(f)
+        for n in walk_local(f.node):
+            if isinstance(n, ast.Call) and (isinstance(n.func, ast.Name) or
+                                            (isinstance(n.func, ast.Attribute) and isinstance(n.func.value, ast.Name)
+                                             and n.func.value.id == 'self')):
+                for c in callees_by_name(p, f, n):
+                    if c.cls is None or r.jobbase in c.cls.mro:
+                        todo.append(c)
+        todo += [c for c in refs(f) if c not in seen]
+    live = 0
+    for f in seen:
+        for lp, it in loops_of(f):
+            acts = [n for n in body_nodes(lp) if shrinking_call(f, n) or direct_shrink(n)]
+            if not acts:
+                continue
+            live += 1
+            node = lp if not isinstance(lp, tuple) else lp[0]
+            why = classify(f, node, it)
+            where = "%s:%d" % (f.module.relpath, node.lineno)
+            if why == UNREADABLE:
+                rep.error(rule, "%s %s: cannot tell what the loop over `%s` iterates, while its body can remove "
+                          "requirements (`%s`)" % (where, f.qualname, src(it), src(acts[0])))
+                continue
+            rep.check(why is None, rule, "%s a loop that can remove requirements does not iterate the live set"
+                      % where, f.qualname,
+                      "`for ... in %s` runs `%s`: %s" % (src(it), src(acts[0])[:60], why),
+                      "job.requires(job.required, remove=True) changes the set it iterates: RuntimeError, and the "
+                      "removal is left half done instead of removing exactly the named requirements")
+    rep.need(rule, live, 1, "loops of requires() whose body can remove requirements")
